@@ -58,13 +58,23 @@ def _ufunc_of(e: ast.AST) -> str | None:
     return None
 
 
-def _nan_substitution(e: ast.AST, ev):
-    """np.where(isnull(X)|np.isnan(X), V, X) -> (True, V); else (False, None)."""
+def _nan_substitution(e: ast.AST, ev, local_vals=None):
+    """np.where(isnull(X)|np.isnan(X), V, X) -> (True, V); np.nan_to_num(X, nan=V) -> ('nan_to_num', V); else (False, None).
+    The mask and the substituted array may be bound to locals first."""
+    local_vals = local_vals or {}
+    if isinstance(e, ast.Name) and len(local_vals.get(e.id, [])) == 1:
+        return _nan_substitution(local_vals[e.id][0], ev, local_vals)
     if isinstance(e, ast.Call) and norm(e.func) in ("np.where", "numpy.where") and len(e.args) == 3:
         c, v, x = e.args
+        if isinstance(c, ast.Name) and len(local_vals.get(c.id, [])) == 1:
+            c = local_vals[c.id][0]
         if isinstance(c, ast.Call) and norm(c.func) in ("isnull", "np.isnan", "numpy.isnan", "pd.isnull") and c.args \
                 and norm(c.args[0]) == norm(x):
             return True, ev.ev(v)
+    if isinstance(e, ast.Call) and norm(e.func) in ("np.nan_to_num", "numpy.nan_to_num") and e.args:
+        v = kwarg(e, "nan")
+        keeps_inf = kwarg(e, "posinf") is not None and kwarg(e, "neginf") is not None
+        return ("nan_to_num" if not keeps_inf else True), (ev.ev(v) if v is not None else 0.0)
     return False, None
 
 
@@ -174,6 +184,10 @@ class EngineModel:
     # -- def wrappers -----------------------------------------------------------------------------
     def _sig_def(self, u: Unit, name: str, fn: ast.FunctionDef, depth) -> Sig:
         s = Sig(name, u.name, fn.lineno, how="def")
+        local_vals: dict = {}
+        for n_ in walk_own(fn):
+            if isinstance(n_, ast.Assign) and len(n_.targets) == 1 and isinstance(n_.targets[0], ast.Name):
+                local_vals.setdefault(n_.targets[0].id, []).append(n_.value)
         params = [a.arg for a in fn.args.posonlyargs + fn.args.args]
         arrayp = params[1] if len(params) > 1 else None
         data_calls = []
@@ -184,7 +198,9 @@ class EngineModel:
                 kws = {k.arg: k.value for k in c.keywords if k.arg}
                 s2 = self._sig_call(u, Sig(name, u.name, fn.lineno), fname, kws, depth)
                 arr = c.args[1] if len(c.args) > 1 else kws.get("array")
-                sub, v = _nan_substitution(arr, self.ev) if arr is not None else (False, None)
+                sub, v = _nan_substitution(arr, self.ev, local_vals) if arr is not None else (False, None)
+                if sub == "nan_to_num":
+                    s2.notes.append("nan_to_num")
                 if sub:
                     s2.discipline, s2.substitute = "skip", v
                 s2.how = "def:" + s2.how
@@ -204,7 +220,9 @@ class EngineModel:
         # the first data call decides the value; later ones (counts for a mean) are auxiliary
         tgt, c = data_calls[0]
         arr = c.args[1]
-        sub, v = _nan_substitution(arr, self.ev)
+        sub, v = _nan_substitution(arr, self.ev, local_vals)
+        if sub == "nan_to_num":
+            s.notes.append("nan_to_num")
         validity = isinstance(arr, ast.Call) and "notnull" in norm(arr) or "isnull" in norm(arr) and not sub
         if tgt == "<npg>":
             s.how = "npg-def"
@@ -270,6 +288,9 @@ def rule_dispatch(ctx) -> RuleResult:
             res.inst(f"{m}.{n}: {s.short()}", f"{m}.{n}")
             if n in ("ffill", "bfill"):
                 continue   # scans: decided by R-SCANTABLE
+            if "nan_to_num" in s.notes:
+                rep(s, "nan_to_num", f"{n} replaces missing values with np.nan_to_num, which also turns +-inf (legal data) into the largest finite "
+                    "numbers unless posinf= and neginf= are given: sums/products of groups containing an infinity come out finite")
             if s.how == "opaque" or s.discipline == "?":
                 res.notes.append(f"UNDECIDED {m}.{n}: signature not computable ({s.short()}; {s.notes})")
                 continue
